@@ -23,6 +23,7 @@ transit.set = patches.OSet      # deterministic iteration over sets of Deferreds
 transit.Connection.callLater = lambda self, period, func: self.owner._reactor.callLater(period, func)
 
 S_HOST, R_HOST, RELAY_HOST, X_HOST = "10.0.0.1", "10.0.0.2", "10.0.0.9", "10.0.0.66"
+RELAY2_HOST = "10.0.0.10"
 RELAY_PORT = 4001
 KEY = b"\x11" * 32
 OTHER_KEY = b"\x22" * 32
@@ -152,11 +153,18 @@ class TransitWorld:
         self.rrelay = SimReactor(self.net, RELAY_HOST)
         self.reactors = [self.rs, self.rr, self.rx, self.rrelay]
         self.now = 0.0
-        relay_arg = None
+        relay_arg = relay_arg2 = None
         if cfg.get("relay"):
             self.relay = Relay()
             self.rrelay.listenTCP(RELAY_PORT, self.relay)
-            relay_arg = "tcp:%s:%d" % (RELAY_HOST, RELAY_PORT)
+            relay_arg = relay_arg2 = "tcp:%s:%d" % (RELAY_HOST, RELAY_PORT)
+        if cfg.get("relay2"):
+            # a second relay server, configured on the receiver only: each side then knows two relays of equal priority
+            self.relay2 = Relay()
+            self.rrelay2 = SimReactor(self.net, RELAY2_HOST)
+            self.reactors.append(self.rrelay2)
+            self.rrelay2.listenTCP(RELAY_PORT, self.relay2)
+            relay_arg2 = "tcp:%s:%d" % (RELAY2_HOST, RELAY_PORT)
         ports = {S_HOST: 46001, R_HOST: 46002}
         saved = (transit.allocate_tcp_port, ipaddrs.find_addresses)
         try:
@@ -167,7 +175,7 @@ class TransitWorld:
             self.S.get_connection_hints().addCallback(hs.append)
             transit.allocate_tcp_port = lambda: ports[R_HOST]
             ipaddrs.find_addresses = lambda: [R_HOST]
-            self.R = transit.TransitReceiver(relay_arg, no_listen=not cfg.get("r_listens"), reactor=self.rr)
+            self.R = transit.TransitReceiver(relay_arg2, no_listen=not cfg.get("r_listens"), reactor=self.rr)
             hr = []
             self.R.get_connection_hints().addCallback(hr.append)
         finally:
